@@ -93,3 +93,10 @@ def _nested_strref(prop, v):
     last = chain.split("@")[0].split("+")[-1]
     pos = chain.split("@")[-1].split("(")[0]
     return (v.get("kind") in ("wrapped-does-not-build", "not-transparent") and last == "strref" and pos in ("coll", "mapval", "tuple", "union"))
+
+
+@classifier("unqualified-string-reference-cached")
+def _strref_cache(prop, v):
+    """unmarshaller('Name') / _resolve_module_name are memoised on the bare string, so the same unqualified reference
+    issued from a second module that defines its own 'Name' resolves to the first module's class."""
+    return v.get("kind") == "history-dependent" and v.get("mechanism") == "string-ref-cache"
